@@ -93,3 +93,16 @@ def notification_failure_leaves_record(si: int, has_stop: bool, raises: bool) ->
         if not raises:
             return False
     return detail == before and type(detail["startDate"]) is float
+
+
+import vh_c16 as _c16
+
+
+@condition(timeout={"quick": 60, "thorough": 120}, functions=["StateEngine.notify (history limit guard)", "update_execution_history", "end_execution"],
+           note="the surfaces agree at the history limit too: the notification says FAILED/States.ExecutionHistoryLimitExceeded and the history's last event is that ExecutionFailed")
+def surfaces_agree_at_history_limit(n: int, retried: bool) -> bool:
+    """
+    requires: 1 <= n <= 25004
+    ensures: _
+    """
+    return _c16.history_limit_on_retry(n) if retried else _c16.history_limit(n)
